@@ -158,6 +158,10 @@ class Interp:
         self.summaries = {}
         self.exact_minmax = False
         self.record_early = True
+        self.minmax = {}
+        self._exact_atoms = set()
+        self.untracked = set()
+        self.opaque_branches = 0
         self.early = False
         self.early_yields, self.early_calls, self.early_cops, self.early_subs = [], [], [], []
         self._forks = []
@@ -473,12 +477,20 @@ class Interp:
             if f.id in ("min", "max") and len(node.args) == 2 and not node.keywords:
                 a, b = self.ev(node.args[0], st), self.ev(node.args[1], st)
                 r = self.opaque(node, st)
+                if isinstance(a, Lin) and isinstance(b, Lin) and not self.exact_minmax:
+                    # remember the definition for case analysis at query time (operands bound to atoms)
+                    aa, bb = self.opaque(node, st, "a."), self.opaque(node, st, "b.")
+                    st.add_eq(aa - a)
+                    st.add_eq(bb - b)
+                    self.minmax[pure_sym(r)] = (f.id, pure_sym(aa), pure_sym(bb))
+                    a, b = aa, bb
                 if isinstance(a, Lin) and isinstance(b, Lin) and self.exact_minmax:
                     # exact: r is one of the operands (case split applied after the statement, so the
                     # operands are first bound to atoms that keep their value if a variable is re-assigned)
                     aa, bb = self.opaque(node, st, "a."), self.opaque(node, st, "b.")
                     st.add_eq(aa - a)
                     st.add_eq(bb - b)
+                    self._exact_atoms.add(pure_sym(r))
                     a, b = aa, bb
                     if f.id == "min":
                         self._forks.append([([r - a], [b - a]), ([r - b], [a - b])])
@@ -513,6 +525,8 @@ class Interp:
             s = self.sym_of(f.value)
             if s in self.containers:
                 return self.container_op(s, f.attr, node, st)
+            if s and s.startswith("self.") and f.attr in ("append", "add", "pop", "remove", "discard", "clear", "extend", "insert"):
+                self.untracked.add(s)
             # super().__init__(...)
             if f.attr == "__init__" and isinstance(f.value, ast.Call) and \
                     isinstance(f.value.func, ast.Name) and f.value.func.id == "super" \
@@ -771,6 +785,9 @@ class Interp:
         if not (isinstance(a, Lin) and isinstance(b, Lin)):
             return
         d = a - b
+        if any(k.startswith("@") and not k.startswith(("@a.", "@b.")) and k not in self.minmax and
+               not any(k == x for x in self._exact_atoms) for k in st.reduce(d).t):
+            self.opaque_branches += 1
         if op in (ast.Lt, ast.LtE, ast.Gt, ast.GtE):
             # an ordering comparison that did not raise: both operands are numbers
             for v in (a, b):
